@@ -18,6 +18,8 @@ func plans() []nrun.Plan {
 	var out []nrun.Plan
 	out = append(out, pscen.Plans()...)
 	out = append(out, cscen.Plans()...)
+	// generated producer family (5 configurations x scripts x disruptors x gates), default schedule
+	out = append(out, pscen.GenPlans()...)
 	return out
 }
 
